@@ -184,6 +184,20 @@ func (s *Sim) Logf(format string, a ...any) uint64 {
 	return s.seq
 }
 
+// Note appends a diagnostic line to the log without touching the trace hash
+// or the event sequence (client log output may contain addresses).
+func (s *Sim) Note(format string, a ...any) {
+	s.mu.Lock()
+	defer s.mu.Unlock()
+	if s.LogOn && len(s.log) < 200000 {
+		line := fmt.Sprintf(format, a...)
+		if len(line) > 600 {
+			line = line[:600] + "..."
+		}
+		s.log = append(s.log, "       note           "+line)
+	}
+}
+
 func (s *Sim) Log() []string {
 	s.mu.Lock()
 	defer s.mu.Unlock()
